@@ -273,8 +273,9 @@ package jsonpath
 //@   decreases 3*height(this) + 2
 
 //@ interface syntaxNode.isValueGroup
-//@   requires WFnode(this)
-//@   ensures ret == vgroup(this)
+//@   requires WFnode(this) || nodeOK(this)
+//@   ensures WFnode(this) ==> ret == vgroup(this)
+//@   ensures nodeOK(this) ==> ret == basicOf(this).valueGroup
 //@   pure
 
 //@ interface errorRuntime.getSyntaxNode
@@ -894,10 +895,12 @@ package jsonpath
 //@   parsetime
 //@   requires nodeOK(this)
 //@   ensures flag: basicOf(this).valueGroup && nodeOK(this)
+//@   ensures only: forall b {F_syntaxBasicNode_valueGroup[b]} :: b != basicOf(this) ==> F_syntaxBasicNode_valueGroup[b] == old(F_syntaxBasicNode_valueGroup[b])
 //@ interface syntaxNode.setAccessorMode
 //@   parsetime
 //@   requires nodeOK(this)
 //@   ensures flag: basicOf(this).accessorMode == mode && nodeOK(this)
+//@   ensures only: forall b {F_syntaxBasicNode_accessorMode[b]} :: b != basicOf(this) ==> F_syntaxBasicNode_accessorMode[b] == old(F_syntaxBasicNode_accessorMode[b])
 //@ interface syntaxNode.setNext
 //@   parsetime
 //@   requires nodeOK(this) && 0 <= chainLen(this) && chainWalk(this)
@@ -905,6 +908,38 @@ package jsonpath
 //@ interface syntaxSubscript.isValueGroup
 //@   requires this != nil
 //@   pure
+
+// The node setters exist once, on *syntaxBasicNode, and reach every node type through embedding (method promotion:
+// the interface contracts above are these contracts with basicOf(this) for the receiver - trusted step).
+//@ func (*syntaxBasicNode).setValueGroup
+//@   props C02 C14
+//@   parsetime
+//@   requires i != nil
+//@   ensures flag: i.valueGroup
+//@   ensures only: forall b {F_syntaxBasicNode_valueGroup[b]} :: b != i ==> F_syntaxBasicNode_valueGroup[b] == old(F_syntaxBasicNode_valueGroup[b])
+//@ func (*syntaxBasicNode).setAccessorMode
+//@   props C02 C12
+//@   parsetime
+//@   requires i != nil
+//@   ensures flag: i.accessorMode == mode
+//@   ensures only: forall b {F_syntaxBasicNode_accessorMode[b]} :: b != i ==> F_syntaxBasicNode_accessorMode[b] == old(F_syntaxBasicNode_accessorMode[b])
+//@ func (*syntaxBasicNode).setText
+//@   props C02 C15
+//@   parsetime
+//@   requires i != nil
+//@   ensures text: i.text == text
+//@ func (*syntaxBasicNode).setConnectedText
+//@   props C02 C15
+//@   parsetime
+//@   requires i != nil
+//@   ensures text: i.connectedText == text
+//@   ensures only: forall b {F_syntaxBasicNode_connectedText[b]} :: b != i ==> F_syntaxBasicNode_connectedText[b] == old(F_syntaxBasicNode_connectedText[b])
+
+// PN(v): parse-time well-formedness of the chain hanging off v, as a token whose definition PNdef is unfolded at the
+// entry state of a function (sound there for every function that leaves the `next` links alone).
+//@ smt (declare-fun PN (Val) Bool)
+//@ spec PNmulti(m *syntaxChildMultiIdentifier) bool = m != nil && wf(m.identifiers) && (forall k {elemAt(m.identifiers, k)} :: off(m.identifiers) <= k && k < off(m.identifiers) + len(m.identifiers) ==> nodeOK(elemAt(m.identifiers, k))) && (m.isAllWildcard ==> m.unionQualifier != nil && m.unionQualifier.syntaxBasicNode != nil)
+//@ spec PNdef(v any) bool = nodeOK(v) && 0 <= chainLen(v) && (basicOf(v).next != nil ==> PN(basicOf(v).next) && chainLen(basicOf(v).next) < chainLen(v)) && (isType(v, *syntaxChildMultiIdentifier) ==> PNmulti(asType(v, *syntaxChildMultiIdentifier)))
 
 // chainWalk(v): v's successor (if any) is again a node with a strictly shorter chain (ghost ranking for termination)
 //@ spec chainWalk(v any) bool = basicOf(v).next != nil ==> nodeOK(basicOf(v).next) && 0 <= chainLen(basicOf(v).next) && chainLen(basicOf(v).next) < chainLen(v) && chainWalkNext(basicOf(v).next)
@@ -946,11 +981,13 @@ package jsonpath
 //@   requires p != nil
 //@   ensures dec: ret0 == jsonDec(old(A_Int[arr(input)]), off(input), len(input)) && ret1 == jsonErr(old(A_Int[arr(input)]), off(input), len(input))
 
+// C14: when the root identifier of a parameter path is dropped, its value-group flag moves to the node that follows it
 //@ func (*jsonPathParser).deleteRootIdentifier
-//@   props C02 C19
+//@   props C02 C19 C14
 //@   parsetime
 //@   trusted
 //@   requires p != nil
+//@   before setValueGroup#1 assert moved: basicOf(targetNode).valueGroup && recv == basicOf(targetNode).next
 //@   requires nodeOK(targetNode) && 0 <= chainLen(targetNode) && chainWalk(targetNode)
 //@   decreases chainLen(targetNode)
 
@@ -1077,7 +1114,7 @@ package jsonpath
 //@   props C02 C19
 //@   parsetime
 //@   requires p != nil
-//@   requires node != nil ==> nodeOK(node) && 0 <= chainLen(node) && chainWalk(node)
+//@   requires node != nil ==> PN(node)
 
 //@ func (*jsonPathParser).pushCompareParameterLiteral
 //@   props C02 C19
@@ -1088,7 +1125,7 @@ package jsonpath
 //@   props C02 C19
 //@   parsetime
 //@   requires p != nil
-//@   requires node != nil ==> nodeOK(node) && 0 <= chainLen(node) && chainWalk(node)
+//@   requires node != nil ==> PN(node)
 
 //@ func (*jsonPathParser).pushCompareRegex
 //@   props C02 C19
@@ -1183,11 +1220,14 @@ package jsonpath
 //@   requires p != nil
 //@   requires wf(p.paramsList) && wf(p.params)
 
+// C15 measures depth by len(connectedText): each node's connected text is its own text followed by the connected text of
+// its successor, or by the postfix at the end of the chain (checked on the real body; the recursion itself is trusted).
 //@ func (*jsonPathParser).setConnectedText
-//@   props C02 C19
+//@   props C02 C19 C15
 //@   parsetime
 //@   trusted
 //@   requires p != nil
+//@   before setConnectedText#2 assert suffix: arg0 == basicOf(recv).text + (basicOf(recv).next != nil ? basicOf(basicOf(recv).next).connectedText : (len(postfix) > 0 ? postfix[0] : "")) && recv == targetNode
 //@   requires nodeOK(targetNode) && 0 <= chainLen(targetNode) && chainWalk(targetNode)
 //@   decreases chainLen(targetNode)
 
@@ -1197,11 +1237,16 @@ package jsonpath
 //@   requires p != nil
 //@   requires len(p.params) >= 1 && wf(p.params) && nodeOK(elemAt(p.params, off(p.params) + len(p.params) - 1)) && (isType(elemAt(p.params, off(p.params) + len(p.params) - 1), *syntaxChildMultiIdentifier) && asType(elemAt(p.params, off(p.params) + len(p.params) - 1), *syntaxChildMultiIdentifier).isAllWildcard ==> asType(elemAt(p.params, off(p.params) + len(p.params) - 1), *syntaxChildMultiIdentifier).unionQualifier.syntaxBasicNode != nil)
 
+// setNodeChain relinks the chain (stale ranking tokens: body trusted), but what it does with an aggregate function's
+// parameter path is checked on its real body: the path linked so far becomes the parameter, its value-group flag is
+// recomputed from it and accessor mode is switched off along it (C14, C12).
 //@ func (*jsonPathParser).setNodeChain
-//@   props C02 C19
+//@   props C02 C19 C12 C14
 //@   parsetime
 //@   trusted
 //@   requires p != nil
+//@   before updateValueGroup#1 assert vgparam: arg1 == root
+//@   before updateAccessorMode#1 assert plainparam: arg1 == root && arg2 == false
 //@   requires wf(p.params) && (forall k {elemAt(p.params, k)} :: off(p.params) <= k && k < off(p.params) + len(p.params) ==> nodeOK(elemAt(p.params, k)) && 0 <= chainLen(elemAt(p.params, k)) && chainWalk(elemAt(p.params, k)))
 
 //@ func (*jsonPathParser).syntaxErr
@@ -1267,25 +1312,41 @@ package jsonpath
 //@   loop 1 invariant pos: sqValid(text) ==> len(inputBytes) == sqPos(text, rangeindex1 + 1) && foundEscape == sqEsc(text, rangeindex1 + 1) && elemAt(inputBytes, 0) == 34
 //@   loop 1 invariant cells: sqValid(text) ==> (forall k {byteAt(text, k)} {sqPos(text, k)} :: 0 <= k && k <= rangeindex1 ==> sqCell(inputBytes, text, k) && 1 <= sqPos(text, k) && sqPos(text, k) + sqW(text, k) <= len(inputBytes))
 
+// C12 at parse time: the walk visits every node of the chain (it leaves the loop only at the end of the chain) and, before
+// it moves on, the node - and for a multi-name selector each inner identifier and the all-wildcard union - carries `mode`.
+// Every write of the function writes `mode`, so by induction over the chain every node on it ends up with `mode`.
+//@ spec modeSet(v any, mode bool) bool = basicOf(v).accessorMode == mode && (isType(v, *syntaxChildMultiIdentifier) ==> (forall k {elemAt(asType(v, *syntaxChildMultiIdentifier).identifiers, k)} :: off(asType(v, *syntaxChildMultiIdentifier).identifiers) <= k && k < off(asType(v, *syntaxChildMultiIdentifier).identifiers) + len(asType(v, *syntaxChildMultiIdentifier).identifiers) ==> basicOf(elemAt(asType(v, *syntaxChildMultiIdentifier).identifiers, k)).accessorMode == mode) && (asType(v, *syntaxChildMultiIdentifier).isAllWildcard ==> asType(v, *syntaxChildMultiIdentifier).unionQualifier.syntaxBasicNode.accessorMode == mode))
 //@ func (*jsonPathParser).updateAccessorMode
-//@   props C02 C19
+//@   props C02 C19 C12
 //@   parsetime
-//@   trusted
 //@   requires p != nil
-//@   requires checkNode != nil ==> nodeOK(checkNode) && 0 <= chainLen(checkNode) && chainWalk(checkNode)
+//@   requires checkNode != nil ==> PN(checkNode)
+//@   unfold forall v Val {PN(v)} :: PN(v) ==> PNdef(v)
+//@   loop 1 invariant chain: checkNode != nil ==> PN(checkNode)
+//@   loop 1 exit walked: checkNode == nil
+//@   before getNext#1 assert visited: modeSet(recv, mode)
+//@   loop 2 invariant inner: PN(checkNode) && basicOf(checkNode).accessorMode == mode && (forall k {elemAt(rangeslice2, k)} :: off(rangeslice2) <= k && k <= off(rangeslice2) + rangeindex2 ==> basicOf(elemAt(rangeslice2, k)).accessorMode == mode)
 
 //@ func (*jsonPathParser).updateRootValueGroup
 //@   props C02 C19
 //@   parsetime
 //@   requires p != nil
-//@   requires len(p.params) >= 1 && wf(p.params) && nodeOK(elemAt(p.params, off(p.params))) && 0 <= chainLen(elemAt(p.params, off(p.params))) && chainWalk(elemAt(p.params, off(p.params)))
+//@   requires len(p.params) >= 1 && wf(p.params) && PN(elemAt(p.params, off(p.params)))
+//@   unfold forall v Val {PN(v)} :: PN(v) ==> PNdef(v)
 
+// C14 at parse time: the walk moves past a value-group node only once rootNode is marked, and leaves the loop either at
+// the end of the chain or with rootNode marked; the flag is never cleared.
 //@ func (*jsonPathParser).updateValueGroup
-//@   props C02 C19
+//@   props C02 C19 C14
 //@   parsetime
-//@   trusted
 //@   requires p != nil
-//@   requires nodeOK(rootNode) && 0 <= chainLen(rootNode) && chainWalk(rootNode)
+//@   requires PN(rootNode)
+//@   unfold forall v Val {PN(v)} :: PN(v) ==> PNdef(v)
+//@   loop 1 invariant chain: PN(rootNode) && (checkNode != nil ==> PN(checkNode)) && (old(basicOf(rootNode).valueGroup) ==> basicOf(rootNode).valueGroup)
+//@   loop 1 exit found: checkNode == nil || basicOf(rootNode).valueGroup
+//@   before getNext#* assert passed: basicOf(recv).valueGroup ==> basicOf(rootNode).valueGroup
+//@   ensures kept: old(basicOf(rootNode).valueGroup) ==> basicOf(rootNode).valueGroup
+//@   ensures only: forall b {F_syntaxBasicNode_valueGroup[b]} :: b != basicOf(rootNode) ==> F_syntaxBasicNode_valueGroup[b] == old(F_syntaxBasicNode_valueGroup[b])
 
 //@ func (*jsonPathParser).unescape$1
 //@   props C02
